@@ -82,6 +82,7 @@ type Harness struct {
 	Pkg      *ssa.Package
 	Fn       *ssa.Function
 	IsTarget func(*ssa.Package) bool
+	stubs    map[string]*ssa.Function
 }
 
 func newInterp(h *Harness, ps *PathState, opt *Options) *interpreter {
@@ -104,6 +105,7 @@ func newInterp(h *Harness, ps *PathState, opt *Options) *interpreter {
 		i.errorStringType = ep.Type("errorString").Object().Type()
 	}
 	initReflect(i)
+	i.stubs = h.stubTable()
 	for _, p := range h.Prog.AllPackages() {
 		if !h.IsTarget(p) {
 			continue
@@ -247,6 +249,7 @@ func Explore(h *Harness, opt Options) *Result {
 	if opt.SolverBin == "" {
 		opt.SolverBin = "z3"
 	}
+	h.stubTable()
 	res := &Result{Unsupported: map[string]int{}, Reached: map[string]int{}, Funcs: map[string]int64{}, DistinctCases: map[string]int{}}
 	var mu sync.Mutex
 	cond := sync.NewCond(&mu)
@@ -395,4 +398,31 @@ func Explore(h *Harness, opt Options) *Result {
 	})
 	res.Wall = time.Since(t0)
 	return res
+}
+
+// stubTable collects harness-supplied stubs: a function VxStub_<pkgname>_<Func> in the harness
+// package replaces <module>/<pkgname>.<Func> (used for the ANTLR-backed parse entry points).
+func (h *Harness) stubTable() map[string]*ssa.Function {
+	if h.stubs != nil {
+		return h.stubs
+	}
+	h.stubs = map[string]*ssa.Function{}
+	for name, m := range h.Pkg.Members {
+		f, ok := m.(*ssa.Function)
+		if !ok || !strings.HasPrefix(name, "VxStub_") {
+			continue
+		}
+		parts := strings.SplitN(strings.TrimPrefix(name, "VxStub_"), "_", 2)
+		if len(parts) != 2 {
+			continue
+		}
+		for _, p := range h.Prog.AllPackages() {
+			if h.IsTarget(p) && p.Pkg.Name() == parts[0] {
+				if tf := p.Func(parts[1]); tf != nil {
+					h.stubs[tf.String()] = f
+				}
+			}
+		}
+	}
+	return h.stubs
 }
